@@ -1,4 +1,5 @@
 import Cvise.Proofs.DriverSim
+import Cvise.Proofs.DriverFmt
 import Cvise.Proofs.DriverLog
 /-! C02 for whole runs: with well-behaved passes the files, the replay table and the control flow of `run_pass` /
     `reduce` do not depend on the schedule oracle. -/
@@ -117,9 +118,17 @@ theorem fileStep_schedule_irrelevant (cfg : Cfg) (W : World C) (P : PassI C σ) 
         simp only [commits_append, h4]
       · have hn : SimR (newLoop cfg W d P k fuel a x (x.disk.getD k default)) (newLoop cfg W d' P k fuel a y (x.disk.getD k default)) := by
           unfold newLoop
+          obtain ⟨c1, c2⟩ := fmtStep_congr W P x y k (x.disk.getD k default) h1
+          have fx := fmtStep_frame W P x k (x.disk.getD k default)
+          have fy := fmtStep_frame W P y k (x.disk.getD k default)
+          have hs : Sim (fmtStep W P x k (x.disk.getD k default)).1 (fmtStep W P y k (x.disk.getD k default)).1 :=
+            ⟨c2, by rw [fx.2.1, fy.2.1, h2], by rw [fx.2.2, fy.2.2, h3], by rw [fx.1, fy.1, h4]⟩
+          rw [← c1]
           split
-          · exact ⟨⟨h1, h2, h3, h4⟩, rfl⟩
-          · exact fileLoop_schedule_irrelevant cfg W P hg d d' k _ fuel a _ 0 x y ⟨h1, h2, h3, h4⟩
+          · exact ⟨hs, rfl⟩
+          · split
+            · exact ⟨hs, rfl⟩
+            · exact fileLoop_schedule_irrelevant cfg W P hg d d' k _ fuel a _ 0 _ _ hs
         generalize newLoop cfg W d P k fuel a x (x.disk.getD k default) = r at hn ⊢
         generalize newLoop cfg W d' P k fuel a y (x.disk.getD k default) = r' at hn ⊢
         rcases r with ⟨x1, a1⟩ | ⟨e1, x1⟩ <;> rcases r' with ⟨y1, b1⟩ | ⟨e2, y1⟩ <;> simp only [SimR] at hn
